@@ -768,6 +768,22 @@ class G:
                 self.use("tuple-with-func")
                 p = self.fresh("p")
                 rt = self.rand_simple()
+                outer = [(nm, t) for nm, t in self.scope if t in SIMPLE and gen.BAREWORD_RE.match(nm) and nm not in gen.RESERVED]
+                if outer and r.random() < 0.4:
+                    # a field named like a binding of the caller, with another type; the call passes the CALLER's binding
+                    self.use("tuple-with-func-field-named-like-binding")
+                    nm, at = r.choice(outer)
+                    other = r.choice([t for t in SIMPLE if t != at])
+                    self.scope.append((p, at))
+                    body = self.expr(rt, 1)
+                    self.scope.pop()
+                    tname = self.fresh("t")
+                    stmts.append(("let", tname, ("tuple", [(nm, self.literal(other)), ("f", ("func", [p], body))])))
+                    self.scope.append((tname, ("tuple", ((nm, other), ("f", ("func", (at,), rt))))))
+                    v = self.fresh()
+                    stmts.append(("let", v, ("call", ("sel", ("sym", tname), ("f", "f")), [("sym", nm)])))
+                    self.scope.append((v, rt))
+                    continue
                 self.scope.append((p, "int"))
                 body = self.expr(rt, 1)
                 self.scope.pop()
